@@ -33,10 +33,17 @@ impl TypeMeta for UnitTypeMeta {
 ///
 /// # Safety
 ///
-/// Though it is not unsafe to implement this trait, it is unsafe to construct a new `Gc` pointer
-/// with an arbitrary implementation of `PtrMeta` and you must assert that it is implemented
-/// correctly when doing so.
-pub trait PtrMeta<T: ?Sized, M> {
+/// Safe code converts between "fat" and "thin" pointers (`Gc::as_thin`, `Gc::as_fat`, `Deref`
+/// for thin pointers) using the implementation selected by the pointer's kind, and dereferences
+/// the result. An implementation must therefore uphold the contract documented on [`to_thin`] and
+/// [`from_thin`] for *every* pointer of a kind it can be selected for. This includes kinds that
+/// the library hands out itself: pointer conversions such as `unsize!` keep the `PtrMeta` type
+/// of the original allocation, so `Gc<dyn Trait>` obtained from a sized allocation has the kind
+/// `UnitPtrMeta`, for which this crate only provides an implementation for sized types.
+///
+/// [`to_thin`]: PtrMeta::to_thin
+/// [`from_thin`]: PtrMeta::from_thin
+pub unsafe trait PtrMeta<T: ?Sized, M> {
     type PtrMetadata: Copy + Send;
     type Thin;
 
@@ -83,7 +90,8 @@ pub trait AllocMeta<T: ?Sized, M>: PtrMeta<T, M> {
 /// cannot do pointer conversion and assumes nothing about the per-type or per-value metadata.
 pub struct UnitPtrMeta;
 
-impl<T, M> PtrMeta<T, M> for UnitPtrMeta {
+// SAFETY: both conversions are the identity.
+unsafe impl<T, M> PtrMeta<T, M> for UnitPtrMeta {
     type PtrMetadata = ();
     type Thin = T;
 
